@@ -1330,6 +1330,10 @@ func (st *Runtime) evalPipeCallExpression(baseExpr reflect.Value, args CallArgs,
 
 func (st *Runtime) evalCommandExpression(node *CommandNode) (reflect.Value, bool) {
 	term := st.evalPrimaryExpressionGroup(node.BaseExpr)
+	if !term.IsValid() && node.Exprs != nil {
+		// a call of something that has no value (a missing map entry, nil)
+		node.BaseExpr.errorf("command %q is called but has no value", node.BaseExpr)
+	}
 	if term.IsValid() && node.Exprs != nil {
 		if term.Kind() == reflect.Func {
 			if term.Type() == safeWriterType {
